@@ -97,8 +97,9 @@ fn c16_echo_g12v1_u8() {
 // @harness c16_echo_g12v1_u16
 // @props C16
 // @tier thorough
+// @class attempt
 // @timeout 3600
-// @mem 6
+// @mem 14
 // @units CommandHeader::{compare, compare_items}, Group12Var1
 // @bounds as c16_echo_g12v1_u8 with 16-bit indices
 #[kani::proof]
@@ -139,13 +140,13 @@ fn c16_echo_g41v1_u16() {
 // @timeout 3600
 // @mem 6
 // @units CommandHeader::{compare, compare_items}, Group41Var3::{read,write}
-// @bounds analog output single-precision (any bit pattern except NaN, which never equals itself), 8-bit indices
+// @bounds analog output single-precision, 8-bit indices, any bit pattern except NaN and the two zeros (the library compares VALUES with IEEE equality, not octets: NaN never equals itself - a faithful NaN echo is refused - and +0.0 equals -0.0 - an echo that differs only in the sign of a zero is accepted; both are outside what this harness asserts, see DESIGN 13)
 #[kani::proof]
 #[kani::unwind(20)]
 fn c16_echo_g41v3_u8() {
     let mk = || {
         let v: f32 = kani::any();
-        kani::assume(!v.is_nan());
+        kani::assume(!v.is_nan() && v != 0.0);
         Group41Var3 { value: v, status: CommandStatus::from(kani::any()) }
     };
     echo_case!(Group41Var3, u8, mk(), CommandHeader::G41V3U8, HeaderDetails::OneByteCountAndPrefix, PrefixedVariation::Group41Var3, 6)
